@@ -7,7 +7,7 @@ LEVEL = 'other'
 EXPLANATION = ('LANG rules over the inlined MIR event graph of every source and every Observer impl: '
                'S1 each basic source delivers exactly its documented notification shape (of = next complete, never = nothing, ...); '
                'S2 error() forwards the error as the only downstream event (no item, aggregate or completion with it) and never swallows it; '
-               'S3 complete() delivers next* then exactly one complete; S4 next() never sends an error and completes downstream only in the '
+               'S3 complete() delivers next* then exactly one complete; S5 is_finished answers true only for an empty slot or a finished downstream (otherwise a hot source skips the operator at its terminal); S6 the take_last/skip_last queues are first-in-first-out; S4 next() never sends an error and completes downstream only in the '
                'tabled early terminators. Decides the termination shape on every path; does not decide which items, their order or counts.')
 ASSUMPTIONS = ['value-level results of user closures, counters and predicates are not decided']
 TECHNIQUE = 'static analysis: regular-language inclusion of downstream event words over MIR event graphs (custom rustc_private driver)'
@@ -93,11 +93,13 @@ CONTROLS = [
     'S2|<verif_controls::SwallowErrorObserver<O> as Observer>::error',
     'S3|<verif_controls::NoCompleteObserver<O> as Observer>::complete',
     'S4|<verif_controls::CompleteInNext<O> as Observer>::next',
+    'S5|<verif_controls::ConstFinishedObserver<O> as Observer>::is_finished',
+    'S6|src/verif_controls.rs field `stack`',
 ]
 
 
 def check(cx):
-    return s1(cx) + s234(cx)
+    return s1(cx) + s234(cx) + s5(cx) + s6(cx)
 
 
 def _src_event(n):
@@ -190,4 +192,22 @@ def s234(cx):
         for k in EXC:
             if k not in used:
                 res.append(Finding(ID, 'S2', 'table:' + k, False, 'exception table entry matches no Observer method (fail closed)'))
+    return res
+
+
+def s5(cx):
+    """an operator may report itself finished only when its downstream slot is empty or the downstream is finished:
+    a hot source skips finished subscribers when it terminates, so a premature `true` loses the terminal"""
+    from . import c16
+    out = []
+    for f in c16.e1(cx):
+        out.append(Finding(ID, 'S5', f.key, f.ok, f.msg if f.ok else (f.msg + ' — a hot source (Subject) skips subscribers that report finished when it delivers its terminal, so the output never terminates'), f.loc, f.witness))
+    return out
+
+
+def s6(cx):
+    from ..core import fifo_findings
+    res = fifo_findings(cx, ID, 'S6', ('src/ops/take_last.rs', 'src/ops/skip_last.rs'))
+    if not cx.control and len(res) < 2:
+        res.append(Finding(ID, 'S6', 'floor', False, 'expected the take_last / skip_last queues, found %d' % len(res)))
     return res
